@@ -247,8 +247,16 @@ func (s *nst) assumeLe0(e linexp) {
 				s.z.add(g, a, k2-k)
 			}
 		}
+		// a bound on a variable that the equalities express through several others (the length of Input[end:] while
+		// end is tied to the rune cursor) must reach those others too: fall through to the reduced form
+		if y == "" || x == "" {
+			if rr := s.k.reduce(e); len(rr.co) >= 2 {
+				goto reduced
+			}
+		}
 		return
 	}
+reduced:
 	r := s.k.reduce(e)
 	if r.isConst() {
 		if r.k.n > 0 {
@@ -615,6 +623,7 @@ type frame struct {
 	ctx  string
 	rec  bool // recording obligations
 	rets []*retState
+	retNames map[string]bool // names of the integer values the function may return (lazily computed)
 }
 
 type retState struct {
@@ -837,6 +846,19 @@ func (e *absEngine) refine(fr *frame, st *nst, cond ssa.Value, truth bool) {
 				st.assumeLe(d.addK(1))
 			} else if st.lb(d) == 0 {
 				st.assumeLe(lconst(0).minus(d).addK(1))
+			}
+		}
+	case *ssa.Call:
+		// strings.HasPrefix(s, p) / HasSuffix: when true, len(s) >= len(p)
+		if nm := calleeName(x); c.True && len(x.Call.Args) == 2 && (nm == "strings.HasPrefix" || nm == "strings.HasSuffix" || nm == "bytes.HasPrefix" || nm == "bytes.HasSuffix") {
+			ls, lp := e.lenLin(fr, st, x.Call.Args[0]), e.lenLin(fr, st, x.Call.Args[1])
+			st.assumeLe(lp.minus(ls))
+		}
+		if l, ok := e.lin(fr, c.V); ok {
+			if c.True {
+				st.assumeEq(l.addK(-1))
+			} else {
+				st.assumeEq(l)
 			}
 		}
 	default:
@@ -1324,6 +1346,44 @@ func (e *absEngine) inline(fr *frame, st *nst, call *ssa.Call, g *ssa.Function) 
 			}
 		}
 		sort.Strings(dead)
+		// a result that is the distance of a callee local from a cell (count = i - end, i bounded): keep the sum
+		// result + cell as a ghost of the caller, with the local's bounds, before the local goes away
+		for i, rv := range r.vals {
+			if !isIntType(rv.Type()) {
+				continue
+			}
+			dst := fr.v(call.Name())
+			if len(r.vals) > 1 {
+				dst += "#" + fmt.Sprint(i)
+			}
+			for _, x := range dead {
+				if !strings.HasPrefix(x, "v:") && !strings.HasPrefix(x, "g:") {
+					continue
+				}
+				for nm := range seen {
+					if !strings.HasPrefix(nm, "c:") {
+						continue
+					}
+					d := rs.k.reduce(lvar(dst).minus(lvar(x)).plus(lvar(nm)))
+					if !d.isConst() || d.k.d != 1 {
+						continue
+					}
+					g := "g:" + strings.TrimPrefix(dst, "v:") + ":sum:" + nm
+					rs.assign(g, lvar(dst).plus(lvar(nm)), nil)
+					for _, other := range rs.z.names[1:] {
+						if other == g || other == x || seen[other] && containsStr(dead, other) {
+							continue
+						}
+						if u := rs.ub(lvar(x).minus(lvar(other))); u < inf {
+							rs.z.add(g, other, u+d.k.n)
+						}
+						if u := rs.ub(lvar(other).minus(lvar(x))); u < inf {
+							rs.z.add(other, g, u-d.k.n)
+						}
+					}
+				}
+			}
+		}
 		for _, nm := range dead {
 			rs.drop(nm)
 		}
@@ -1744,13 +1804,93 @@ func (e *absEngine) pruneDead(fr *frame, li *liveInfo, at *ssa.BasicBlock, st *n
 			base = base[:i]
 		}
 		if !e.nameLive(li, at, base) {
+			// the length of a string handed to HasPrefix/HasSuffix is needed where the result is branched on
+			if strings.HasPrefix(nm, preL) {
+				if v, ok := li.byName[base]; ok && v.Referrers() != nil {
+					keep := false
+					for _, ref := range *v.Referrers() {
+						if call, isCall := ref.(*ssa.Call); isCall {
+							if cn := calleeName(call); strings.HasSuffix(cn, ".HasPrefix") || strings.HasSuffix(cn, ".HasSuffix") {
+								if e.nameLive(li, at, call.Name()) {
+									keep = true
+								}
+								// the result feeds a condition phi of this very block (a && chain): the branch on it is still ahead
+								if call.Referrers() != nil {
+									for _, r2 := range *call.Referrers() {
+										if ph, isPhi := r2.(*ssa.Phi); isPhi && ph.Block() == at {
+											keep = true
+										}
+									}
+								}
+							}
+						}
+					}
+					if keep {
+						continue
+					}
+				}
+			}
 			dead = append(dead, nm)
 		}
 	}
 	sort.Strings(dead)
+	// a dead local that an equality ties to a value the function returns (count = i - end with i bounded) carries
+	// the bound of that result: it stays until the frame returns
+	rets := e.retFeeding(fr)
 	for _, nm := range dead {
-		st.drop(nm)
+		tied := false
+		if len(rets) > 0 && strings.HasPrefix(nm, pre) {
+			for _, row := range st.k.rows {
+				if _, has := row.co[nm]; !has {
+					continue
+				}
+				for v := range row.co {
+					if v != nm && rets[v] {
+						tied = true
+					}
+				}
+			}
+		}
+		if !tied {
+			st.drop(nm)
+		}
 	}
+}
+
+// retFeeding: the names of the integer SSA values that can be returned by the frame's function (through phis).
+func (e *absEngine) retFeeding(fr *frame) map[string]bool {
+	if fr.retNames != nil {
+		return fr.retNames
+	}
+	out := map[string]bool{}
+	var visit func(v ssa.Value, d int)
+	visit = func(v ssa.Value, d int) {
+		if d > 4 || v == nil || !isIntType(v.Type()) {
+			return
+		}
+		if _, isC := v.(*ssa.Const); isC {
+			return
+		}
+		nm := fr.v(v.Name())
+		if out[nm] {
+			return
+		}
+		out[nm] = true
+		if ph, ok := v.(*ssa.Phi); ok {
+			for _, ed := range ph.Edges {
+				visit(ed, d+1)
+			}
+		}
+	}
+	if fr.fn != nil && fr.ctx != "" && strings.Contains(fr.ctx, "/") {
+		for _, ret := range returnsOf(fr.fn) {
+			for _, rv := range returnValues(ret) {
+				visit(rv, 0)
+			}
+		}
+	}
+	fr.retNames = out
+	return out
 }
 
 func (e *absEngine) nameLive(li *liveInfo, at *ssa.BasicBlock, name string) bool {
@@ -1868,4 +2008,13 @@ func reversePostOrder(fn *ssa.Function) []*ssa.BasicBlock {
 		post[i], post[j] = post[j], post[i]
 	}
 	return post
+}
+
+func containsStr(xs []string, x string) bool {
+	for _, y := range xs {
+		if y == x {
+			return true
+		}
+	}
+	return false
 }
